@@ -90,6 +90,10 @@ def _int(E, a, kw, fr, node):
     v = a[0]
     if len(a) == 2:
         if isinstance(v, SV) and v.ty == TStr and a[1] == 16:
+            t = z3.simplify(v.t)
+            if z3.is_app(t) and t.decl().name() == "bytes_hex":
+                # B2: int(b.hex(), 16) is the big-endian value of b
+                return SV(L.b2i(t.arg(0)), TInt)
             return SV(hexint()(v.t), TInt)
         if isinstance(v, str):
             try:
